@@ -154,6 +154,15 @@ def _compare(got, exp_segs, exp_tags, facts=()):
             if need != 0: mism.append((where, 'a %d-byte field is specified here; image has %s' % (e[2], show_segs(got[i:i + 2])))); break
             pos = add(pos, C(e[2])); i = k; j += 1; continue
         if g[0] == 'int' and e[0] == 'int' and g[2] != e[2] and e[1] != ANY and g[1][0] != 'c':
+            # a value emitted through a wider integer than it needs (`sink.qword(u64::from(flags))` for flags:4 ++ 0:4) is the
+            # narrow field followed by zero bytes - and the other way round
+            wide, narrow = (g, e) if g[2] > e[2] else (e, g)
+            lo_, hi_ = rng(wide[1])
+            if lo_ >= 0 and hi_ < (1 << (8 * narrow[2])):
+                parts = [('int', wide[1], narrow[2]), ('int', ZERO, wide[2] - narrow[2])]
+                if wide is g: got[i:i + 1] = parts
+                else: exp[j:j + 1] = parts; tags[j:j + 1] = [tags[j], None]
+                continue
             # a wider/narrower field than specified: reported once; the comparison goes on field by field (positions are
             # the specification's), so that a second, unrelated deviation further on is not hidden behind this one
             mism.append((where, 'width %d, specified %d (%s vs %s)' % (g[2], e[2], show(g[1]), show(e[1]))))
